@@ -13,6 +13,11 @@ FirstFree(km) ==
   LET size == Cardinality(DOMAIN km)
       free == {i \in 1..size : i \notin Keys(km)}
   IN IF free = {} THEN size + 1 ELSE CHOOSE i \in free : \A j \in free : i <= j
+\* the same rule written relationally, as RegistryInd.tla (Apalache, unbounded keys) states it
+IsFirstFree(km, k) ==
+  /\ k >= 1 /\ k <= Cardinality(DOMAIN km) + 1
+  /\ k \notin Keys(km)
+  /\ \A j \in 1..(Cardinality(DOMAIN km) + 1) : j < k => j \in Keys(km)
 KeyFor(km, name) == IF name \in DOMAIN km THEN km[name] ELSE FirstFree(km)
 Register(km, name) == IF name \in DOMAIN km THEN km ELSE [n \in DOMAIN km \cup {name} |-> IF n = name THEN FirstFree(km) ELSE km[n]]
 
